@@ -4,7 +4,7 @@
    The model describes the REPAIRED code (D3: LocationGreater uses CDF(U1-0.5)); the two-sided exact
    p-value is the legacy formula the code has (finding D2) and the specified value is computed next to it. *)
 From Coq Require Import Qround.
-From MM Require Import Base.Num Base.GEComb Base.GESort Model.Choose Model.Udist.
+From MM Require Import Base.Num Base.GEComb Base.GESort Model.GEChoose Model.Udist.
 Open Scope Z_scope.
 
 Section MW.
